@@ -374,7 +374,7 @@ def setup(tier, seed):
     jobs = _jobs(tier)
     return {
         'jobs': jobs,
-        'budget_s': 900 if tier == 'quick' else 3300,
+        'budget_s': 780 if tier == 'quick' else 3300,
         'explanation': 'bounded submit/execute/cancel histories on the real Sandbox driver, Order, Position and SpotExchange (passive strategy '
                        'attached); balance, fee, quantities, prices symbolic; after every operation z3 proves quote and base balances and the '
                        'position size equal to the cash-account model, no negative balance, no short, and InsufficientBalance raised iff a buy '
